@@ -522,6 +522,8 @@ class Interp:
                     return False
             if fn is len and len(args) == 1 and isinstance(args[0], Stub) and hasattr(args[0], "_abs_len"):
                 return args[0]._abs_len()
+            if (fn is int or fn is float) and len(args) == 1 and isinstance(args[0], Stub) and hasattr(args[0], "_abs_cast"):
+                return args[0]._abs_cast(fn.__name__)
             if fn is type and len(args) == 1 and hasattr(args[0], "_abs_type"):
                 return args[0]._abs_type
             if fn is getattr and len(args) in (2, 3) and isinstance(args[0], Stub) and isinstance(args[1], str):
